@@ -849,7 +849,7 @@ def r08_1(ctx):
                 f"Gateway.data_received does {[text(c.func) for c in calls]} instead of only forwarding to frame_received", func=g)
 
 
-@rule("R08.4", ["C08"], "T-WMW", floor=1)
+@rule("R08.4", ["C08", "C06", "C13", "C17"], "T-WMW", floor=1)
 def r08_4(ctx):
     """A malformed or unexpected frame cannot affect later commands: the only protocol state the receive path
     (EZSP.frame_received, ProtocolHandler.__call__ and the helpers they call) modifies is the pending entry popped under
